@@ -6,7 +6,7 @@ from .common import viol, h, compact_case, CATS
 
 ID = 'C10'
 CLAIM = ('every packet the tool emits on every simulated connection (handshake, host-key probes, GEX probes) is decoded by an independent decoder at the peer while the run '
-         'proceeds: total length = 0 mod 8, padding >= 4, consistent length fields, probe KEXINITs carry exactly the intended lists, GEX requests are the documented tuples, '
+         'proceeds, also when the send buffer takes only 1 .. 16384 bytes per send() call (short writes; a connection closed with part of a packet written is a violation): total length = 0 mod 8, padding >= 4, consistent length fields, probe KEXINITs carry exactly the intended lists, GEX requests are the documented tuples, '
          'e is a canonical positive mpint in range and equals g^x mod p for the exponent the randomness seam handed out; payload lengths are swept through all residues mod 8 by '
          'varying the server lists the tool echoes back; conversely well-framed SSH-2 packets with every legal padding length / pad byte and SSH-1 packets under every segmentation '
          'are accepted, also when several packets arrive in one delivery (SSH_MSG_DEBUG packets right before the replies), and an SSH-1 CRC off by one bit is rejected. NOT decided here: signed/negative mpints, read_mpint2, SSH-1 mpint writers and message re-encoding never reach '
